@@ -4,7 +4,8 @@ import MalVerif.Py.TieLegacyBase
 
 `process_model_sim`: on the encoding of a well-formed typed document the GENERATED `updater_process_model` returns a
 model whose abstraction is the state the hand-written `Legacy.loadOld` computes (from the state the empty heap stands
-for), and it raises exactly when `loadOld` rejects the document.
+for), and it raises exactly when `loadOld` rejects the document.  `process_model_sim_class`: … and the exception it
+raises agrees with the error of `loadOld` (`OldErrAgree`).
 -/
 namespace MalVerif.PyLeg.Tie
 open MalVerif MalVerif.PyM MalVerif.PyM.Gen MalVerif.PyM.Tie MalVerif.PyLeg MalVerif.PyLeg.Gen MalVerif.Legacy
@@ -37,14 +38,18 @@ theorem enc_attackers_keys (atts : List (Key × Ser.AttackerEntry)) :
 
 theorem jIter_list (l : List PyJ) : jIter (.list l) = .ok l := rfl
 
-theorem process_model_sim (files : Files) (env : ModelEnv) (fac : Factory) (defsOk : Key → Bool) (nested : Bool)
+/-- the composition of the three loops, with the exception class: the translated loader returns a model whose abstraction
+is the state the hand model computes, or it raises `e` and the hand model rejects with an error that agrees with `e`
+(`OldErrAgree`: the same class, or one of the listed disagreements) -/
+theorem process_model_sim_class (files : Files) (env : ModelEnv) (fac : Factory) (defsOk : Key → Bool) (nested : Bool)
     (name : String) (d : OldDoc)
     (hA : StepSim (PA env) (QA fac defsOk) (assetBody env fac) encA (loadOldAsset fac.L defsOk))
     (hLs : StepSim PL (AssocWf fac.L nested) (assocBody env fac) (encAssoc nested) (loadOldAssoc fac.L))
     (hT : StepSim PT (QT d.attackers) (attackerBody env (infoOf d.attackers)) (fun e => keyJ e.1) Ser.loadAttacker)
     (hwf : OldWf fac.L nested d) (hdefs : DefsOkOf fac d defsOk) (hfuel : d.assets.length ≤ env.whileFuel) :
-    okSt (updater_process_model files env (encOld nested name d) fac) =
-      optSt (loadOldFrom fac.L defsOk (abs (emptyModel name)) d) := by
+    match updater_process_model files env (encOld nested name d) fac with
+    | .ok s' => loadOldFrom fac.L defsOk (abs (emptyModel name)) d = .ok (abs s')
+    | .error e => ∃ er, loadOldFrom fac.L defsOk (abs (emptyModel name)) d = .error er ∧ OldErrAgree e er := by
   rw [process_model_eq]
   simp only [enc_metadata, enc_name, enc_assets, enc_assets_items, enc_assocs, enc_has_attackers, enc_attackers,
     enc_attackers_keys, jIter_list, bind, Except.bind, newModel, if_true]
@@ -56,9 +61,10 @@ theorem process_model_sim (files : Files) (env : ModelEnv) (fac : Factory) (defs
   simp only [bind, Except.bind]
   cases h1 : forIn (d.assets.map encA) ({ name := name } : H) (assetBody env fac) with
   | error e =>
-    obtain ⟨er, her⟩ := a2 e h1
-    show none = optSt _
-    rw [show abs (emptyModel name) = abs ({ name := name } : H) from rfl, her]; rfl
+    obtain ⟨er, her, hag⟩ := a2 e h1
+    show ∃ er', _ = Except.error er' ∧ OldErrAgree e er'
+    rw [show abs (emptyModel name) = abs ({ name := name } : H) from rfl, her]
+    exact ⟨er, rfl, hag⟩
   | ok s1 =>
     obtain ⟨hs1, hI1, _, hF1⟩ := a1 s1 h1
     rw [show abs (emptyModel name) = abs ({ name := name } : H) from rfl, hs1]
@@ -66,9 +72,10 @@ theorem process_model_sim (files : Files) (env : ModelEnv) (fac : Factory) (defs
     obtain ⟨b1, b2⟩ := loop_sim hLs d.associations hwf.assocs s1 ⟨hI1, hF1⟩
     cases h2 : forIn (d.associations.map (encAssoc nested)) s1 (assocBody env fac) with
     | error e =>
-      obtain ⟨er, her⟩ := b2 e h2
-      show none = optSt _
-      rw [her]; rfl
+      obtain ⟨er, her, hag⟩ := b2 e h2
+      show ∃ er', _ = Except.error er' ∧ OldErrAgree e er'
+      rw [her]
+      exact ⟨er, rfl, hag⟩
     | ok s2 =>
       obtain ⟨hs2, _, hF2⟩ := b1 s2 h2
       rw [hs2]
@@ -77,14 +84,35 @@ theorem process_model_sim (files : Files) (env : ModelEnv) (fac : Factory) (defs
       obtain ⟨c1, c2⟩ := loop_sim hT d.attackers hqt s2 hF2
       cases h3 : forIn (d.attackers.map (fun e => keyJ e.1)) s2 (attackerBody env (infoOf d.attackers)) with
       | error e =>
-        obtain ⟨er, her⟩ := c2 e h3
+        obtain ⟨er, her, hag⟩ := c2 e h3
         simp only []
-        show none = optSt _
-        rw [her]; rfl
+        show ∃ er', _ = Except.error er' ∧ OldErrAgree e er'
+        rw [her]
+        exact ⟨er, rfl, hag⟩
       | ok s3 =>
         obtain ⟨hs3, _⟩ := c1 s3 h3
         simp only []
-        show some (abs s3) = optSt _
-        rw [hs3]; rfl
+        show _ = Except.ok (abs s3)
+        rw [hs3]
+
+/-- … without the class: the loader returns the model of the hand model, and raises exactly when that rejects -/
+theorem process_model_sim (files : Files) (env : ModelEnv) (fac : Factory) (defsOk : Key → Bool) (nested : Bool)
+    (name : String) (d : OldDoc)
+    (hA : StepSim (PA env) (QA fac defsOk) (assetBody env fac) encA (loadOldAsset fac.L defsOk))
+    (hLs : StepSim PL (AssocWf fac.L nested) (assocBody env fac) (encAssoc nested) (loadOldAssoc fac.L))
+    (hT : StepSim PT (QT d.attackers) (attackerBody env (infoOf d.attackers)) (fun e => keyJ e.1) Ser.loadAttacker)
+    (hwf : OldWf fac.L nested d) (hdefs : DefsOkOf fac d defsOk) (hfuel : d.assets.length ≤ env.whileFuel) :
+    okSt (updater_process_model files env (encOld nested name d) fac) =
+      optSt (loadOldFrom fac.L defsOk (abs (emptyModel name)) d) := by
+  have h := process_model_sim_class files env fac defsOk nested name d hA hLs hT hwf hdefs hfuel
+  cases hr : updater_process_model files env (encOld nested name d) fac with
+  | ok s' =>
+    rw [hr] at h
+    have h' : loadOldFrom fac.L defsOk (abs (emptyModel name)) d = .ok (abs s') := h
+    rw [h']; rfl
+  | error e =>
+    rw [hr] at h
+    obtain ⟨er, her, _⟩ : ∃ er, loadOldFrom fac.L defsOk (abs (emptyModel name)) d = .error er ∧ OldErrAgree e er := h
+    rw [her]; rfl
 
 end MalVerif.PyLeg.Tie
